@@ -14,6 +14,7 @@ EXTENDS Integers, Sequences, FiniteSets, TLC, Conv
 NoneV == [t |-> "N"]
 TrueV == [t |-> "T"]
 Str(s) == [t |-> "s", v |-> s]
+IntV(ds) == [t |-> "I", v |-> ds]     \* a (non-negative) Python int given as a default, by its digits
 Lst(l) == [t |-> "L", v |-> l]
 CmdV(k) == [t |-> "C", v |-> k]             \* the CommandName object inserted for an omitted command name
 NoErr == "none"
@@ -218,6 +219,12 @@ ConvV(el, v) ==      \* v: NoneV | Str; TrueV / Lst only reach here when a scrat
                             [] el.type = "int" -> [k |-> "int", neg |-> FALSE, digits |-> <<"1">>]
                             [] OTHER -> [k |-> "float?"])
   ELSE IF v.t = "L" THEN (IF el.type = "str" THEN [k |-> "str", v |-> <<"<list>">>] ELSE [k |-> "ValueError"])
+  \* a default that is a Python int (parse_string: str(n); parse_boolean: by its decimal text; parse_int: itself)
+  ELSE IF v.t = "I" THEN (CASE el.type = "str" -> [k |-> "str", v |-> v.v]
+                            [] el.type = "bool" -> (IF v.v = <<"1">> THEN [k |-> "bool", v |-> TRUE]
+                                                    ELSE IF v.v = <<"0">> THEN [k |-> "bool", v |-> FALSE] ELSE [k |-> "ValueError"])
+                            [] el.type = "int" -> [k |-> "int", neg |-> FALSE, digits |-> v.v]
+                            [] OTHER -> [k |-> "float?"])
   ELSE Conv(el.type, el.nullable, FALSE, v.v)
 ConvList(el, vs) == [k \in 1..Len(vs) |-> ConvV(el, vs[k])]
 Bad(c) == c.k = "ValueError"
@@ -233,6 +240,8 @@ TypedOpt(op, v) ==
 \* the raw default an Args object reports for what was not given
 RawV(d) == IF d.t = "N" THEN [k |-> "none"]
            ELSE IF d.t = "s" THEN [k |-> "str", v |-> d.v]
+           ELSE IF d.t = "T" THEN [k |-> "bool", v |-> TRUE]
+           ELSE IF d.t = "I" THEN [k |-> "int", neg |-> FALSE, digits |-> d.v]
            ELSE [k |-> "list", v |-> [j \in 1..Len(d.v) |-> [k |-> "str", v |-> d.v[j].v]]]
 ArgDefault(ar) == IF ar.multi /\ ar.dflt.t = "N" THEN [k |-> "list", v |-> <<>>] ELSE RawV(ar.dflt)
 OptDefault(op) == IF op.mode = "none" THEN [k |-> "bool", v |-> FALSE]
